@@ -157,34 +157,37 @@ def run(rep):
                 rep.violation({"test": "pair-pow2", "width": Wp, "rows": [r1, r2], "seed": rep.seed},
                               f"width {Wp} depth 8, rows {r1},{r2}: coarse joint histogram chi2(49) = {x:.1f}")
         rep.nontrivial(("pow2", Wp))
-    # a third universe of LONG keys (12 bytes: more than one 8-byte hash block), width 16
-    long_keys = [b"longkey-" + k for k in keys[256:]]
-    cols3 = columns("linear", W, D, long_keys)
-    rep.evals(len(long_keys) * D)
-    worst3 = 0.0
-    for r in range(D):
-        x = chi2_uniform(cols3[:, r], W)
-        if x >= 120:
-            rep.violation({"test": "uniform-long", "row": r, "seed": rep.seed},
-                          f"12-byte keys, row {r}: column histogram chi2(15) = {x:.1f} (limit 120)")
-    for r1 in range(D):
-        for r2 in range(r1 + 1, D):
-            x = chi2_indep(cols3[:, r1], cols3[:, r2], W)
-            worst3 = max(worst3, x)
-            rep.evals(len(long_keys))
-            if x >= 480:
-                rep.violation({"test": "pair-long", "rows": [r1, r2], "seed": rep.seed},
-                              f"12-byte keys, rows {r1} and {r2}: joint column histogram "
-                              f"chi2(225) = {x:.1f} (limit 480): the rows are not independent")
-            rep.nontrivial(("pair-long", r1, r2))
-    # with d independent rows the number of distinct column vectors is ~ the number of keys
-    distinct = len({bytes(row) for row in cols3.astype(np.uint8)})
-    rep.set("distinct_column_vectors_long_keys", distinct)
-    if distinct < 0.99 * len(long_keys):
-        rep.violation({"test": "vectors-long", "seed": rep.seed},
-                      f"12-byte keys: only {distinct} distinct column vectors among "
-                      f"{len(long_keys)} keys at width 16, depth 8 (16^8 possible)")
-    rep.set("worst_pair_chi2_long_keys", round(worst3, 2))
+    # further universes of LONG keys: more than one 8-byte hash block (10-12 bytes), more than 32
+    # bytes, more than 128 bytes - width 16
+    for plen in (8, 38, 126):
+      prefix = (b"longkey-" * 16)[:plen]
+      long_keys = [prefix + k for k in keys[256:]]
+      cols3 = columns("linear", W, D, long_keys)
+      rep.evals(len(long_keys) * D)
+      worst3 = 0.0
+      for r in range(D):
+          x = chi2_uniform(cols3[:, r], W)
+          if x >= 120:
+              rep.violation({"test": "uniform-long", "row": r, "seed": rep.seed, "plen": plen},
+                            f"{plen+2}-byte keys, row {r}: column histogram chi2(15) = {x:.1f} (limit 120)")
+      for r1 in range(D):
+          for r2 in range(r1 + 1, D):
+              x = chi2_indep(cols3[:, r1], cols3[:, r2], W)
+              worst3 = max(worst3, x)
+              rep.evals(len(long_keys))
+              if x >= 480:
+                  rep.violation({"test": "pair-long", "rows": [r1, r2], "seed": rep.seed, "plen": plen},
+                                f"{plen+2}-byte keys, rows {r1} and {r2}: joint column histogram "
+                                f"chi2(225) = {x:.1f} (limit 480): the rows are not independent")
+              rep.nontrivial(("pair-long", plen, r1, r2))
+      # with d independent rows the number of distinct column vectors is ~ the number of keys
+      distinct = len({bytes(row) for row in cols3.astype(np.uint8)})
+      rep.set(f"distinct_column_vectors_long_keys_{plen+2}", distinct)
+      if distinct < 0.99 * len(long_keys):
+          rep.violation({"test": "vectors-long", "seed": rep.seed, "plen": plen},
+                        f"{plen+2}-byte keys: only {distinct} distinct column vectors among "
+                        f"{len(long_keys)} keys at width 16, depth 8 (16^8 possible)")
+      rep.set(f"worst_pair_chi2_long_keys_{plen+2}", round(worst3, 2))
     # the other counter types and smaller depths use the same per-row functions
     sub = keys[:: max(1, len(keys) // 3000)]
     ref = cols[:: max(1, len(keys) // 3000)]
@@ -246,7 +249,7 @@ def replay(case):
         x = chi2_indep(a, b, 8)
         return x >= 49 + 12 * math.sqrt(98) + 40, {"chi2": x}
     if t in ("uniform-long", "pair-long", "vectors-long"):
-        long_keys = [b"longkey-" + k for k in keys[256:]]
+        long_keys = [(b"longkey-" * 16)[: case.get("plen", 8)] + k for k in keys[256:]]
         cols3 = columns("linear", W, D, long_keys)
         if t == "uniform-long":
             x = chi2_uniform(cols3[:, case["row"]], W)
